@@ -1,6 +1,7 @@
 package main
 
 import (
+	"encoding/json"
 	"fmt"
 	"reflect"
 	"strconv"
@@ -83,9 +84,38 @@ func genC06(tier, out string, sum *Summary) {
 	}
 	g := &Gen{Funcs: true, Arith: true, Lets: true, enumFuncs: true, mutFuncs: true}
 	c := &relCtx{sh: &Shards{dir: out, prop: "C06", imports: "Spec.RefAst Checks.Spec", ctype: "speccase", runner: "spec_run", per: 300}, sum: sum, dist: map[string]bool{}}
+	// MustCompile panics exactly when Compile fails: every static fault of the error-contract catalogue
+	// (syntax, arity, unknown function, expression-reference position, slice step) and every run-time one
+	for _, f := range c08Faults() {
+		_, cerr := jmespath.Compile(f.expr)
+		sum.count("mustcompile-catalogue")
+		if (cerr != nil) != f.static {
+			continue // the catalogue entry is judged by the C08 check
+		}
+		if mustCompilePanics(f.expr) != (cerr != nil) {
+			sum.direct("mustcompile", f.expr, nil, fmt.Sprintf("MustCompile panics=%v but Compile error=%v", cerr == nil, cerr))
+		}
+	}
+	// expressions whose values come out of the compiled expression itself (literals, multi-selects) and
+	// pass through every function that could sort, grow or return its argument in place
+	fixed := []string{"merge(`{\"base\":\"lit\"}`, @)", "merge(`{\"a\":1}`, `{\"b\":2}`, {c: @})", "`[3,1,2]` | sort(@)", "sort(`[\"b\",\"c\",\"a\"]`)", "`[\"b\",\"c\",\"a\"]` | [@[0], sort(@)[0], @[0]]", "reverse(`[1,2,3]`)",
+		"sort_by(`[{\"k\":2},{\"k\":1}]`, &k)", "`[{\"k\":2},{\"k\":1}]` | [@[0].k, sort_by(@, &k)[0].k, @[0].k]", "group_by(`[{\"k\":\"a\"},{\"k\":\"b\"}]`, &k)", "to_array(`[1]`)", "not_null(`[1,2]`, a)", "`[1,2,3]`[::-1]", "`[1,2,3]`[1:]", "`[[2,1],[3]]`[]",
+		"zip(`[1,2]`, `[3,4]`)", "zip(a, b)", "map(&@, `[[1],[2]]`)", "from_items(`[[\"a\",1]]`)", "items(`{\"a\":1}`)", "values(`{\"a\":[2,1]}`)[0] | sort(@)", "[a, b] | sort(@)", "{x: a, y: b} | merge(@, {z: `1`})", "[`[2,1]`, a][0] | sort(@)",
+		"merge({x: a}, @)", "merge(@, {x: a})", "sort([c, a, b][?@])", "a[*] | sort(@)", "a | sort(@)", "reverse(a)", "sort_by(a, &@)", "a[:] | reverse(@)", "to_array(a) | sort(@)", "not_null(a) | sort(@)", "a || `[2,1]` | sort(@)", "max_by(`[{\"k\":1},{\"k\":2}]`, &k)", "let $l = `[2,1]` in [sort($l), $l]", "let $l = a in [sort($l), $l, reverse($l)]"}
+	type item struct {
+		e    *R
+		text string
+	}
+	items := make([]item, 0, n+len(fixed))
+	for _, t := range fixed {
+		items = append(items, item{nil, t})
+	}
 	for i := 0; i < n; i++ {
 		e := g.expr(3)
-		text := unparse(e)
+		items = append(items, item{e, unparse(e)})
+	}
+	for _, it := range items {
+		e, text := it.e, it.text
 		un := hasEnum(e)
 		progress(text)
 		expr, cerr := jmespath.Compile(text)
@@ -99,8 +129,10 @@ func genC06(tier, out string, sum *Summary) {
 		}
 		docs := make([]any, 3)
 		for j := range docs {
-			if j > 0 {
+			if j > 0 && e != nil {
 				docs[j] = withSpare(docFor(e))
+			} else if e == nil {
+				docs[j] = withSpare(map[string]any{"a": []any{json.Number("3"), json.Number("1"), json.Number("2")}, "b": []any{"y", "x"}, "c": json.Number(strconv.Itoa(j))})
 			} else {
 				docs[j] = withSpare(genDoc())
 			}
@@ -131,7 +163,7 @@ func genC06(tier, out string, sum *Summary) {
 					c.dist[text+"#"+strconv.Itoa(di)] = true
 				}
 			}
-			if k == 0 {
+			if k == 0 && e != nil {
 				c.emit(e, deepCopy(doc), o, un)
 			}
 			// a result that aliases the input must not be written by later calls: append to results
@@ -160,14 +192,39 @@ func genC07(tier, out string, sum *Summary) {
 	}
 	g := &Gen{Funcs: true, Arith: true, Lets: true, enumFuncs: true, mutFuncs: true}
 	distinct := map[string]bool{}
-	for i := 0; i < n; i++ {
-		e := g.expr(3)
-		text := unparse(e)
+	// scratch space kept between calls shows when the calls work on different data
+	fixed := []string{"zip(a, b)", "zip(a, b, a)", "merge(@, {x: a})", "merge({x: a}, {y: b}, @)", "sort(a)", "sort_by(o, &n)[*].n", "a[*] | reverse(@)", "[a, b][]", "map(&[@, @], a)", "group_by(o, &to_string(n))", "let $v = a in [$v, b, $v]", "not_null(c, a, b)", "{p: a, q: b, r: c}", "a[?@ > c]", "max_by(o, &n)", "join(',', map(&to_string(@), a))", "from_items(zip(keys(@), values(@))) | length(@)", "to_string(@)", "a[::-1]", "sum(a) + c"}
+	total := n + len(fixed)
+	for i := 0; i < total; i++ {
+		var e *R
+		var text string
+		if i < len(fixed) {
+			text = fixed[i]
+		} else {
+			e = g.expr(3)
+			text = unparse(e)
+		}
 		un := hasEnum(e)
 		progress(text)
 		expr, cerr := jmespath.Compile(text)
-		doc := genDocWide()
-		seq := search(text, doc)
+		// one shared document, or (every other expression) a document of its own for every goroutine
+		docs := make([]any, workers)
+		seqs := make([]Obs, workers)
+		shared := genDocWide()
+		for w := range docs {
+			docs[w] = shared
+			if i%2 == 1 || i < len(fixed) {
+				if e != nil {
+					docs[w] = docFor(e)
+				} else {
+					k := strconv.Itoa(w)
+					docs[w] = map[string]any{"a": []any{json.Number(k + "3"), json.Number(k + "1"), json.Number(k + "2")}, "b": []any{"y" + k, "x" + k, "z" + k}, "c": json.Number(k + "2"), "o": []any{map[string]any{"n": json.Number(k + "5")}, map[string]any{"n": json.Number(k + "4")}}}
+				}
+			}
+			seqs[w] = search(text, docs[w])
+		}
+		doc := docs[0]
+		seq := seqs[0]
 		sum.count("expressions")
 		sum.count("outcome/" + seq.Kind)
 		var wg sync.WaitGroup
@@ -177,6 +234,7 @@ func genC07(tier, out string, sum *Summary) {
 			wg.Add(1)
 			go func(w int) {
 				defer wg.Done()
+				doc, seq := docs[w], seqs[w]
 				for r := 0; r < rounds; r++ {
 					var o Obs
 					switch (w + r) % 3 {
